@@ -33,7 +33,7 @@ var c16Topics = []string{"t1", "t2"}
 // half-dead-current: the broker's writes to the current connection start failing while its read loop keeps
 // waiting (the broker then closes the connection on the next write, but the connection stays registered and
 // its read loop notices only when the link is finally dropped, as a "superseded"/dead connection).
-var c16Events = []string{"connect-clean", "connect-keep", "subscribe-t1", "subscribe-t2", "subscribe-t1-qos0", "unsubscribe-t1", "drop-current", "drop-superseded", "admin-delete", "half-dead-current", "storage-stalls", "storage-resumes"}
+var c16Events = []string{"connect-clean", "connect-keep", "subscribe-t1", "subscribe-t2", "subscribe-t1-qos0", "unsubscribe-t1", "drop-current", "drop-superseded", "admin-delete", "admin-delete-late-watch-event", "half-dead-current", "storage-stalls", "storage-resumes"}
 
 // storage-stalls / storage-resumes: the session store (etcd) stops answering puts for a while; what was written
 // meanwhile is persisted, in order, when it resumes.  Connections are only attempted while the storage works
@@ -130,6 +130,8 @@ func TestVerifC16(t *testing.T) {
 						ok = !stalled && ref.current >= 0
 					case "storage-resumes":
 						ok = stalled
+					case "admin-delete-late-watch-event":
+						ok = ref.current >= 0 && !stalled
 					case "admin-delete":
 						// reading: what a session delete means for writes that the stalled storage has not
 						// applied yet is not defined by the statement, so the two are not combined
@@ -241,6 +243,27 @@ func TestVerifC16(t *testing.T) {
 							break
 						}
 					}
+				case "admin-delete-late-watch-event":
+					// the storage's delete event reaches the broker late (etcd watches are asynchronous); meanwhile the client,
+					// still connected, sends a SUBSCRIBE whose session write lands after the delete. Once the event is delivered
+					// the client must be disconnected all the same. What is persisted afterwards is the delete/write race the
+					// statement leaves open (see "admin-delete" above), so the history ends here.
+					vb.store.holdWatch()
+					vb.httpDeleteSession("c")
+					cur := conns[ref.current]
+					if !cur.subscribe("t2", 1) {
+						c.Failf("subscribe-not-acked", "history %v (delete event still under way)", hist)
+					}
+					synctest.Wait()
+					vb.store.releaseWatch()
+					synctest.Wait()
+					cur.send(packets.NewControlPacket(packets.Pingreq))
+					synctest.Wait()
+					if !cur.closedByBroker() {
+						c.Failf("admin-delete-does-not-disconnect:late-watch-event", "history %v: the session was deleted through the admin endpoint, the client subscribed before the delete event reached the broker, and its connection still works after the event was delivered", hist)
+					}
+					c.Outcome("last=admin-delete-late-watch-event disconnected")
+					return
 				case "admin-delete":
 					vb.httpDeleteSession("c")
 					cur := conns[ref.current]
